@@ -435,6 +435,12 @@ func (env *SpecEnv) ident(name string, hint types.Type) Value {
 				}
 				return v
 			}
+			if env.ex.isHeapAlloc(a) {
+				// an addressed struct local lives in the heap: the name denotes (a pointer to) it
+				if v, ok := env.fr.vals[a]; ok {
+					return v
+				}
+			}
 			sfail("local %s is not live here", name)
 		}
 	}
